@@ -62,10 +62,19 @@ def run_config(args):
         from symx import core, facade
         core.Ctx.prove_timeout_ms = int(cfg.get('timeout_ms', 20000 if tier == 'quick' else 120000))
         fn = lambda c: H.run(cfg, c)
+        hook = None
+        if cfg.get('fork_budget') is not None or cfg.get('branch_timeout_ms') or cfg.get('light'):
+            def hook(cx, _fb=cfg.get('fork_budget'), _bt=cfg.get('branch_timeout_ms'), _li=cfg.get('light')):
+                if _li:
+                    cx.light = True
+                if _fb is not None:
+                    cx.fork_budget = _fb
+                if _bt:
+                    cx.solver.set('timeout', int(_bt))
         del facade.STUB_LOG[:]
         with facade.Installed(**getattr(H, 'FACADE_KW', {})):
             results, complete = core.explore(fn, max_paths=cfg.get('max_paths', getattr(H, 'MAX_PATHS', 400)),
-                                             time_budget=cfg.get('time_budget', 240 if tier == 'quick' else 1800))
+                                             time_budget=cfg.get('time_budget', 240 if tier == 'quick' else 1800), ctx_hook=hook)
         out['complete'] = complete
         out['stubs'] = list(facade.STUB_LOG)
         validate_budget = cfg.get('validate', 1)
@@ -78,6 +87,7 @@ def run_config(args):
             for a in pr.assumptions:
                 if a not in out['assumptions']:
                     out['assumptions'].append(a)
+            out['cut'] += getattr(pr, 'unexplored', 0)
             if pr.status == 'cut':
                 out['cut'] += 1
             elif pr.status == 'ok':
